@@ -126,7 +126,25 @@ pub broadcast axiom fn axiom_borrowed_removed_str<V>(old: Map<String, V>, new: M
     ensures #[trigger] borrowed_key_removed::<String, V, str>(old, new, k) <==>
         forall|s: String| s@ == k@ ==> new == old.remove(s);
 
+/// ghost: `key.borrow() == k` for a map key and a borrowed lookup key
+pub uninterp spec fn borrowed_matches<K, Q: ?Sized>(key: K, k: &Q) -> bool;
+
+pub broadcast axiom fn axiom_borrowed_matches_str(key: String, k: &str)
+    ensures #[trigger] borrowed_matches::<String, str>(key, k) <==> key@ == k@;
+
+/// `HashMap::get_mut` (no vstd contract): a mutable borrow of the value stored under the matching key
+pub assume_specification<'a, K: core::borrow::Borrow<Q> + core::hash::Hash + Eq, V, S: core::hash::BuildHasher, A: Allocator, Q: core::hash::Hash + Eq + ?Sized>
+    [ HashMap::<K, V, S, A>::get_mut::<Q> ](m: &'a mut HashMap<K, V, S, A>, k: &Q) -> (r: Option<&'a mut V>)
+    ensures
+        match r {
+            Some(v) => exists|key: K| #[trigger] borrowed_matches::<K, Q>(key, k) && old(m)@.contains_key(key) && *v == old(m)@[key]
+                && final(m)@ == old(m)@.insert(key, *final(v)),
+            None => (forall|key: K| #[trigger] borrowed_matches::<K, Q>(key, k) ==> !old(m)@.contains_key(key)) && final(m)@ == old(m)@,
+        },
+;
+
 pub broadcast group group_string_map {
+    axiom_borrowed_matches_str,
     axiom_string_obeys_key_model, axiom_string_view_injective, axiom_contains_borrowed_str, axiom_maps_borrowed_str,
     axiom_borrowed_removed_str,
 }
